@@ -570,7 +570,14 @@ class Gen:
         self.body(self.r.randrange(0, 2), 0)
         self.loop_names.pop()
         self.depth -= 1
-        self.emit("%s = %s" % (self.rvar(), self.rexpr(1)), label=lab, role="close", kind="action_term", cid=c)
+        term = self.ch(["%s = %s" % (self.rvar(), self.rexpr(1)),
+                        "%s = %s" % (self.rvar(), self.rexpr(1)),
+                        "if (%s) %s = %s" % (self.lexpr(1), self.rvar(), self.rexpr(1)),
+                        "allocate(dynA(3), stat = %s)" % self.ivar(),
+                        "open(unit = 12, file = 'term.dat')",
+                        "call subOne(%s)" % self.rexpr(1),
+                        "print *, %s" % self.rexpr(1)])
+        self.emit(term, label=lab, role="close", kind="action_term", cid=c)
 
     def select_case(self, b):
         c = self.newcid()
